@@ -32,6 +32,7 @@ type VKey struct {
 	Foreign        bool
 	RelTerm        string // termination type of the announced release
 	EverBound      bool
+	RMBound        bool // the shim itself reported the allocation as bound (recovery path / bind of a pending ask)
 	ShimReleased   bool // the shim itself asked for the release of this key
 }
 
@@ -149,8 +150,10 @@ func (v *View) Apply(evs []*shim.Ev, settle bool) []ProtoViolation {
 			k := v.key(e.Key)
 			if k.Phase == PhNone {
 				k.App, k.Res, k.PH, k.Node, k.Phase, k.EchoPending, k.EverBound, k.TG, k.Prio, k.ReqNode = e.App, e.Res, e.Flag, e.Node, PhBound, true, true, e.TG, e.Prio, e.ReqNode
+				k.RMBound = true
 			} else if k.Phase == PhPending {
 				k.Node, k.Phase, k.EchoPending, k.EverBound = e.Node, PhBound, true, true
+				k.RMBound = true
 			} else if k.Phase == PhBound {
 				k.Res = e.Res
 			}
